@@ -101,6 +101,10 @@ func judgeEvents(r *Run, w *World, e *Engine) {
 			if x.Kind == "InitStart" {
 				r.Failf("C15.grammar", "initialisation #%d (started at step %d) has no init-report before the next init-start at step %d", nInit, ev.Step, x.Step)
 			}
+			if x.Kind == "InvokeRuntimeDone" {
+				// the end of an invocation (also the one a reset reports) is not part of an initialisation
+				r.Failf("C15.grammar", "invoke runtime-done (status %s) at step %d inside the init-start .. init-report block of initialisation #%d", x.Status, x.Step, nInit)
+			}
 			// other events (ImageErrorLog, InvokeStart of a failed inline init, ...) may interleave
 		}
 		if !closed {
